@@ -22,6 +22,10 @@ func main() {
 		props.CleanScratch()
 		return
 	}
+	if len(os.Args) >= 2 && os.Args[1] == "sg" {
+		sgMain()
+		return
+	}
 	if len(os.Args) >= 2 && os.Args[1] == "probe" {
 		probeMain()
 		return
